@@ -96,6 +96,7 @@ inductive Obs where
   | recover                                      -- the process died; what follows is a fresh process on the same adapters
   | fadapter (a : Nat) (pending unacked acked : List String)
   | fconsumer (c : Nat) (submitted completed : Int)
+  | fjob (k : Nat) (st : Option JStatus)          -- status of job k's handle at rest
   | enterAt (c k : Nat)                          -- worker function of consumer c entered for payload k
   deriving DecidableEq, Repr, Inhabited
 
